@@ -35,7 +35,7 @@ func VerifC11_AlignSlots() {
 		before[i] = *ep
 	}
 	cfg.Backends().Commit()
-	d := &dynUpdater{logger: zzLogger{}, config: cfg, metrics: zzMetrics{}}
+	d := zzNewDynUpdater(cfg, nil)
 	d.alignSlots()
 
 	total := len(b.Endpoints)
@@ -155,7 +155,7 @@ func VerifC11_NoopResync() {
 	}
 	cfg.Shrink()
 	sock := &zzSock{table: zzLoad(old.Endpoints)}
-	d := &dynUpdater{logger: zzLogger{}, config: cfg, socket: sock, metrics: zzMetrics{}}
+	d := zzNewDynUpdater(cfg, sock)
 	updated := d.update()
 	nd.Assert(updated, "no-reload-for-in-capacity-endpoint-change")
 	if mode <= 1 {
